@@ -33,17 +33,24 @@ def items(tier: str) -> List[Any]:
         # RekeyTo gets the full structure space; the other three fields share the code path and get
         # the atom table + smaller structure spaces in the quick tier
         l2 = None if (field == "RekeyTo" or tier != "quick") else 2
-        for s in spaces.layered(full, small, tier, l2_size=l2, l3=(field in ("RekeyTo", "Sender") or tier != "quick")):
+        for s in spaces.layered(full, small, tier, l2_size=l2, l3=(field in ("RekeyTo", "Sender") or tier != "quick"),
+                                chains=(field == "RekeyTo" or tier != "quick")):
             if s not in seen:
                 seen.add(s)
                 out.append(("direct", field, s))
         sh = []
-        for a in small[:2]:
+        for a in small[:2] + [[f"txn {field}", f"addr {A.LIT1}", "!="]]:
             sh += A.shuffled(a)
-        for s in spaces.layered(sh, sh[:2], tier, l2_size=1 if tier == "quick" else 2, l3=False, max_subs=1):
+        if tier == "quick" and field not in ("RekeyTo", "Sender"):
+            sh = sh[::3]
+        for s in spaces.layered(sh, sh[:2], tier, l2_size=1 if tier == "quick" else 2, l3=False, max_subs=1, chains=False):
             if s not in seen:
                 seen.add(s)
                 out.append(("shuffle", field, s))
+    for s in spaces.unresolvable_constants([x for m, f, x in out if m == "direct" and f == "RekeyTo"], 2000 if tier == "quick" else 10000):
+        if s not in seen:
+            seen.add(s)
+            out.append(("shuffle", "RekeyTo", s))
     out.append(("lattice", "", ""))
     return out
 
